@@ -5,3 +5,4 @@ import Votca.Props.C20
 import Votca.Props.C20Findings
 import Votca.Props.C14
 import Votca.Props.C02
+import Votca.Props.C01
